@@ -21,7 +21,8 @@ EXPLANATION = (
     "Watcher._get_sockets_fds <- Watcher.sockets, assigned only in initialize "
     "from the arbiter's table); R4 Popen's close_fds is exactly `not use_fds`, "
     "use_fds is the watcher's use_sockets, and no pass_fds is given. Decides "
-    "these necessary conditions, not what a worker finds at the descriptor.")
+    "these necessary conditions, not what a worker finds at the descriptor."
+    "R1 also requires the remembered socket configuration (s._cfg) to be the section exactly as read, since reloadconfig compares against it. ")
 ASSUMPTIONS = ["python >= 3.4 (socket.set_inheritable exists)"]
 
 W = 'circus.watcher:Watcher.'
